@@ -192,12 +192,14 @@ theorem FrameAt.transfer {P : Prog} {A : Array Anns} (hA : AllChecked P A) {g : 
 
 /-- A state flowing into `pc'` of a checked function gives the current frame a `TopShape`. -/
 theorem top_of_flow {P : Prog} {A : Array Anns} (hA : AllChecked P A) {f : Frame} {fn : Function}
-    {pc' : Nat} {out : Ann} {k sb sLen lLen : Nat} {park : Park} {sel : Option SelectState}
+    {pc' : Nat} {out : Ann} {k sb : Nat} {stk : List Val} {lLen : Nat} {park : Park}
+    {sel : Option SelectState}
     (hfn : P.functions[f.functionIndex]? = some fn) (hcc : CapsOK f fn)
     (hflow : flowsTo fn.instructions.size (annsOf A f.functionIndex) pc' out = true)
-    (hs : sLen = sb + out.height) (hl : f.localsBase + out.locals ≤ lLen)
+    (hs : stk.length = sb + out.height) (hl : f.localsBase + out.locals ≤ lLen)
+    (hg : GuardSem f.localsBase lLen out.guard stk)
     (hpark : park = .none) (hsel : SelNotAt sel k) :
-    TopShape P A { f with counter := pc' } k sb sLen lLen park sel := by
+    TopShape P A { f with counter := pc' } k sb stk lLen park sel := by
   have hC := checked_of hA hfn
   unfold flowsTo at hflow
   split at hflow
@@ -213,6 +215,7 @@ theorem top_of_flow {P : Prog} {A : Array Anns} (hA : AllChecked P A) {f : Frame
         exact this
       have hi : fn.instructions[pc']? = some fn.instructions[pc'] := by simp [hlt]
       exact .normal fn b _ ⟨hfn, hcc, hb, hi⟩ (by simp; omega) (by omega) hpark hsel
+        (guard_of_flows hflow.2 hl hg)
     · cases hflow
 
 /-! ## Preservation, piece by piece -/
@@ -224,7 +227,7 @@ theorem Inv.intro {P : Prog} {A : Array Anns} {p : Proc} {f : Frame} {rest : Lis
     (hselw : ∀ st, p.selectState = some st → AllWF P st.sources)
     (hselb : ∀ st, p.selectState = some st → st.frame < rest.length + 1)
     (hres : p.result = none)
-    (htop : TopShape P A f rest.length sb p.stack.length p.locals.length p.park p.selectState)
+    (htop : TopShape P A f rest.length sb p.stack p.locals.length p.park p.selectState)
     (hbelow : Below P A s0 p.selectState rest sb f.localsBase) : Inv P A s0 p where
   stackWF := hsw
   localsWF := hlw
@@ -237,7 +240,7 @@ theorem Inv.intro {P : Prog} {A : Array Anns} {p : Proc} {f : Frame} {rest : Lis
 theorem Inv.unpack {P : Prog} {A : Array Anns} {p : Proc} {f : Frame} {rest : List Frame}
     (h : Inv P A s0 p) (hfr : p.frames = f :: rest) :
     p.result = none ∧ ∃ sb,
-      TopShape P A f rest.length sb p.stack.length p.locals.length p.park p.selectState ∧
+      TopShape P A f rest.length sb p.stack p.locals.length p.park p.selectState ∧
       Below P A s0 p.selectState rest sb f.localsBase := by
   have := h.shape
   rw [hfr] at this
@@ -252,9 +255,9 @@ theorem inv_entry {P : Prog} {A : Array Anns} (hA : AllChecked P A) {p : Proc} (
   | nil => simp [hst] at hne
   | cons v s =>
     have hslen : s.length = s0 := by simp [hst] at hne; exact hne
-    have htop := top_of_flow (k := 0) (sb := s.length) (sLen := p.stack.length) (lLen := p.locals.length)
+    have htop := top_of_flow (k := 0) (sb := s.length) (stk := p.stack) (lLen := p.locals.length)
       (park := p.park) (sel := p.selectState) hA hfn hcc hC.entry (by simp [hst]) (by simpa using hl)
-      h.park (by simp [SelNotAt, h.sel])
+      (by simp) h.park (by simp [SelNotAt, h.sel])
     have hf : ({ f with counter := 0 } : Frame) = f := by cases f; simp_all
     rw [hf] at htop
     exact Inv.intro (rest := []) hfr h.stackWF h.localsWF (by simp [h.sel]) (by simp [h.sel]) h.result htop hslen
@@ -265,6 +268,7 @@ theorem run_simple {P : Prog} {A : Array Anns} (hA : AllChecked P A) {O : Oracle
     (hinv : Inv P A s0 p) (hfr : p.frames = f :: rest) (hres : p.result = none)
     (hat : FrameAt P A f fn a i) (hsimple : i.simple = true)
     (hl : f.localsBase + a.locals ≤ p.locals.length) (hs : p.stack.length = sb + a.height)
+    (hg : GuardSem f.localsBase p.locals.length a.guard p.stack)
     (hpark : p.park = .none) (hsel : SelNotAt p.selectState rest.length)
     (hbelow : Below P A s0 p.selectState rest sb f.localsBase) :
     match stepInstr O P p i with
@@ -272,7 +276,7 @@ theorem run_simple {P : Prog} {A : Array Anns} (hA : AllChecked P A) {O : Oracle
     | .ok (p', _) => Inv P A s0 p' := by
   obtain ⟨succs, htr, hflow⟩ := hat.transfer hA
   have hC := checked_of hA hat.hfn
-  have h1 := simple_step_sound (O := O) hfr htr hs hl hsimple hC.small hat.lt_size.2
+  have h1 := simple_step_sound (O := O) hfr htr hs hl hg hsimple hC.small hat.lt_size.2
   cases hstep : stepInstr O P p i with
   | error e => rw [hstep] at h1; exact h1
   | ok r =>
@@ -280,30 +284,30 @@ theorem run_simple {P : Prog} {A : Array Anns} (hA : AllChecked P A) {O : Oracle
     rw [hstep] at h1
     obtain ⟨s, hsm, hst⟩ := h1
     have hwf := simple_step_wf hsimple hinv.stackWF hinv.localsWF hstep
-    have htop := top_of_flow (f := f) (k := rest.length) (sb := sb) (sLen := p'.stack.length)
+    have htop := top_of_flow (f := f) (k := rest.length) (sb := sb) (stk := p'.stack)
       (lLen := p'.locals.length) (park := p'.park) (sel := p'.selectState) hA hat.hfn hat.hcc
-      (hflow s hsm) hst.stack hst.locals (by rw [hst.park, hpark]) (by rw [hst.sel]; exact hsel)
+      (hflow s hsm) hst.stack hst.locals hst.guard (by rw [hst.park, hpark]) (by rw [hst.sel]; exact hsel)
     exact Inv.intro hst.frames hwf.1 hwf.2 (by rw [hst.sel]; exact hinv.selWF)
       (by rw [hst.sel]; intro st h; have := hinv.selBound st h; rw [hfr] at this; simpa using this)
       (by rw [hst.result, hres]) htop (by rw [hst.sel]; exact hbelow)
 
 theorem transfer_call {P : Prog} {n caps pc : Nat} {a : Ann} {succs : List (Nat × Ann)}
     (h : transfer P n caps pc a .call = .ok succs) :
-    2 ≤ a.height ∧ succs = [(pc + 1, ⟨a.height - 1, a.locals⟩)] := by
+    2 ≤ a.height ∧ succs = [(pc + 1, ⟨a.height - 1, a.locals, .none⟩)] := by
   simp only [transfer] at h
   split at h <;> cases h
   exact ⟨by assumption, rfl⟩
 
 /-- Entering function `fi` (checked) with a fresh frame gives the new frame a `TopShape`. -/
 theorem top_of_entry {P : Prog} {A : Array Anns} (hA : AllChecked P A) {fi lb cc : Nat} {fn : Function}
-    {k sb sLen lLen : Nat} {park : Park} {sel : Option SelectState}
+    {k sb : Nat} {stk : List Val} {lLen : Nat} {park : Park} {sel : Option SelectState}
     (hfn : P.functions[fi]? = some fn) (hcc : cc = fn.captures)
-    (hs : sLen = sb + 1) (hl : lb + fn.captures ≤ lLen)
+    (hs : stk.length = sb + 1) (hl : lb + fn.captures ≤ lLen)
     (hpark : park = .none) (hsel : SelNotAt sel k) :
-    TopShape P A (Frame.new fi lb cc) k sb sLen lLen park sel := by
+    TopShape P A (Frame.new fi lb cc) k sb stk lLen park sel := by
   have hC := checked_of hA hfn
   exact top_of_flow (f := Frame.new fi lb cc) hA hfn (fun _ => hcc) hC.entry (by simp [hs])
-    (by simpa [Frame.new] using hl) hpark hsel
+    (by simpa [Frame.new] using hl) (by simp) hpark hsel
 
 theorem run_call {P : Prog} {A : Array Anns} (hA : AllChecked P A) {O : Oracle} (hO : OracleWF P O)
     {p : Proc} {f : Frame} {rest : List Frame} {fn : Function} {a : Ann} {sb : Nat}
@@ -357,9 +361,9 @@ theorem run_call {P : Prog} {A : Array Anns} (hA : AllChecked P A) {O : Oracle} 
         | value v =>
           simp only [ok]
           have hv := hO.1 id param v hb
-          have htop := top_of_flow (f := f) (k := rest.length) (sb := sb) (sLen := (v :: s').length)
+          have htop := top_of_flow (f := f) (k := rest.length) (sb := sb) (stk := v :: s')
             (lLen := p.locals.length) (park := p.park) (sel := p.selectState) hA hat.hfn hat.hcc
-            hflow1 (by simp; omega) (by simpa using hl) hpark hsel
+            hflow1 (by simp; omega) (by simpa using hl) (by simp) hpark hsel
           refine Inv.intro (f := { f with counter := f.counter + 1 }) (rest := rest) (sb := sb)
             (by simp [Proc.bump, hfr]) ?_ ?_ ?_ ?_ ?_ ?_ ?_
           · simpa using ⟨hv, hsw''⟩
@@ -452,7 +456,7 @@ theorem run_tailCall {P : Prog} {A : Array Anns} (hA : AllChecked P A)
 
 theorem transfer_spawn {P : Prog} {n caps pc : Nat} {a : Ann} {succs : List (Nat × Ann)}
     (h : transfer P n caps pc a .spawn = .ok succs) :
-    2 ≤ a.height ∧ succs = [(pc + 1, ⟨a.height - 1, a.locals⟩)] := by
+    2 ≤ a.height ∧ succs = [(pc + 1, ⟨a.height - 1, a.locals, .none⟩)] := by
   simp only [transfer] at h
   split at h <;> cases h
   exact ⟨by assumption, rfl⟩
@@ -493,7 +497,7 @@ theorem run_spawn {P : Prog} {A : Array Anns} (hA : AllChecked P A)
 
 theorem transfer_select {P : Prog} {n caps pc : Nat} {a : Ann} {succs : List (Nat × Ann)}
     (h : transfer P n caps pc a .select = .ok succs) :
-    1 ≤ a.height ∧ succs = [(pc + 1, a)] := by
+    1 ≤ a.height ∧ succs = [(pc + 1, ⟨a.height, a.locals, .none⟩)] := by
   simp only [transfer] at h
   split at h <;> cases h
   exact ⟨by assumption, rfl⟩
@@ -546,7 +550,7 @@ theorem run_pop {P : Prog} {A : Array Anns} (hA : AllChecked P A)
         hinv.stackWF (hinv.localsWF.take _) hinv.selWF ?_ hres ?_ hrec
       · intro st h; have := hselb' st h; simpa using this
       · exact top_of_flow (f := g) hA hatg.hfn hatg.hcc hflow1 (by simp; omega) (by simp [hlen]; omega)
-          hpark hselg
+          (by simp) hpark hselg
     · -- returning the verdict of a filter function to the active `Select`: counter unchanged
       obtain ⟨hh, _⟩ := transfer_select htr
       have hlen : (p.locals.take f.localsBase).length = f.localsBase := by
@@ -585,10 +589,10 @@ theorem run_finish {P : Prog} {A : Array Anns} {p : Proc}
       · simp [finish, hres, hst, hfr, hpark]
 
 /-- `TopShape` only looks at sizes, parking and select state. -/
-theorem TopShape.park_of_selecting {P : Prog} {A : Array Anns} {f : Frame} {k sb sLen lLen : Nat}
-    {sel : Option SelectState}
-    (h : TopShape P A f k sb sLen lLen .selecting sel) :
-    TopShape P A f k sb sLen lLen .none sel := by
+theorem TopShape.park_of_selecting {P : Prog} {A : Array Anns} {f : Frame} {k sb : Nat}
+    {stk : List Val} {lLen : Nat} {sel : Option SelectState}
+    (h : TopShape P A f k sb stk lLen .selecting sel) :
+    TopShape P A f k sb stk lLen .none sel := by
   cases h with
   | exhausted _ _ _ _ _ hpark => cases hpark
   | normal _ _ _ _ _ _ hpark => cases hpark
@@ -648,15 +652,15 @@ theorem ev_resume {P : Prog} {A : Array Anns} (hA : AllChecked P A) {p : Proc} {
         Inv P A s0 ({ p with stack := v :: p.stack, park := .none }.bump) := by
       intro fn a i hat hi hl hs hsel
       obtain ⟨succs, htr, hflow⟩ := hat.transfer hA
-      have hsucc : 2 ≤ a.height ∧ succs = [(f.counter + 1, ⟨a.height - 1, a.locals⟩)] := by
+      have hsucc : 2 ≤ a.height ∧ succs = [(f.counter + 1, ⟨a.height - 1, a.locals, .none⟩)] := by
         rcases hi with rfl | rfl
         · exact transfer_spawn htr
         · exact transfer_call htr
       obtain ⟨hh, rfl⟩ := hsucc
       have hflow1 := hflow _ (List.mem_cons_self)
-      have htop' := top_of_flow (f := f) (k := rest.length) (sb := sb) (sLen := (v :: p.stack).length)
+      have htop' := top_of_flow (f := f) (k := rest.length) (sb := sb) (stk := v :: p.stack)
         (lLen := p.locals.length) (park := Park.none) (sel := p.selectState) hA hat.hfn hat.hcc
-        hflow1 (by simp; omega) (by simpa using hl) rfl hsel
+        hflow1 (by simp; omega) (by simpa using hl) (by simp) rfl hsel
       refine Inv.intro (f := { f with counter := f.counter + 1 }) (rest := rest) (sb := sb)
         (by simp [Proc.bump, hfr]) ?_ ?_ ?_ ?_ ?_ ?_ ?_
       · simpa using ⟨hv, hinv.stackWF⟩
@@ -695,9 +699,9 @@ theorem run_selectDecide {P : Prog} {A : Array Anns} (hA : AllChecked P A) {O : 
   | complete v =>
     simp only [ok]
     have hv := hO.2.1 v hdec
-    have htop := top_of_flow (f := f) (k := rest.length) (sb := sb) (sLen := (v :: q.stack).length)
+    have htop := top_of_flow (f := f) (k := rest.length) (sb := sb) (stk := v :: q.stack)
       (lLen := q.locals.length) (park := q.park) (sel := none) hA hat.hfn hat.hcc
-      hflow1 (by simp; omega) (by simpa using hl) hpark (by simp [SelNotAt])
+      hflow1 (by simp; omega) (by simpa using hl) (by simp) hpark (by simp [SelNotAt])
     refine Inv.intro (f := { f with counter := f.counter + 1 }) (rest := rest) (sb := sb)
       (by simp [Proc.bump, hfr]) ?_ ?_ ?_ ?_ ?_ ?_ ?_
     · simpa using ⟨hv, hsw⟩
@@ -846,10 +850,10 @@ theorem inv_step {P : Prog} {A : Array Anns} (hA : AllChecked P A) {p : Proc} {e
           have hi : fn.instructions[f.counter]? = none := by simp [hpc]
           simp only [hfn, hi, ok]
           exact run_pop hA hinv hfr hres hs hl hpark hsel hbelow
-        | normal fn a i hat hl hs _ hsel =>
+        | normal fn a i hat hl hs _ hsel hg =>
           simp only [hat.hfn, hat.hinstr]
           by_cases hsimple : i.simple = true
-          · exact lift_res <| run_simple hA hinv hfr hres hat hsimple hl hs hpark hsel hbelow
+          · exact lift_res <| run_simple hA hinv hfr hres hat hsimple hl hs hg hpark hsel hbelow
           · cases i with
             | call => exact lift_res (r := stepInstr O P p .call) <| run_call hA hO hinv hfr hres hat hl hs hpark hsel hbelow
             | tailCall r => exact lift_res (r := stepInstr O P p (.tailCall r)) <| run_tailCall hA hinv hfr hres hat hl hs hpark hsel hbelow
